@@ -276,6 +276,24 @@ func CheckPQCodes(c VecContext, prop string, post map[uuid.UUID]bool) error {
 	if p == nil {
 		return nil
 	}
+	// the persisted centroid-to-centroid table (used for point-to-point distances while pruning) holds the
+	// distance between the persisted centroids
+	if want := p.NumSub * p.NumCentroids * p.NumCentroids; len(c.Bucket.CDists) != want {
+		return fmt.Errorf("persisted centroid distance table has %d entries, expected %d", len(c.Bucket.CDists), want)
+	}
+	for sv := 0; sv < p.NumSub; sv++ {
+		for j := 0; j < p.NumCentroids; j++ {
+			for k := 0; k < p.NumCentroids; k++ {
+				cj := p.Centroids[sv*p.NumCentroids*p.SubLen+j*p.SubLen : sv*p.NumCentroids*p.SubLen+(j+1)*p.SubLen]
+				ck := p.Centroids[sv*p.NumCentroids*p.SubLen+k*p.SubLen : sv*p.NumCentroids*p.SubLen+(k+1)*p.SubLen]
+				ref, tol, _ := model.RefDistance(p.DistMetric, cj, ck)
+				got := float64(c.Bucket.CDists[sv*p.NumCentroids*p.NumCentroids+j*p.NumCentroids+k])
+				if math.Abs(got-ref) > tol+1e-6*math.Abs(ref) {
+					return fmt.Errorf("centroid distance table: sub-vector %d centroids %d,%d holds %v, the %s distance between the persisted centroids %v and %v is %v", sv, j, k, got, p.DistMetric, cj, ck, ref)
+				}
+			}
+		}
+	}
 	for id, d := range c.M.Docs {
 		vec, ok := model.FieldVector(d, prop)
 		if !ok {
